@@ -127,6 +127,11 @@ func (g *IrreversibleBlockIDGate) ProcessBlock(blk *pbbstream.Block, obj interfa
 		return g.handler.ProcessBlock(blk, obj)
 	}
 
+	fobj := obj.(*ForkableObject)
+	if fobj.step != bstream.StepIrreversible {
+		return nil
+	}
+
 	g.passed = blk.Id == g.blockID
 
 	if (g.blockID == "" || g.blockID == "0000000000000000000000000000000000000000000000000000000000000000") && blk.Number == 2 {
